@@ -154,7 +154,7 @@ int main(int argc, char **argv) {
     int n = toks(line, tv, 16);
     if (n == 0) { printf("\n"); continue; }
     const char *op = tv[0];
-    alarm(240); // a call that does not return is a finding, not a reason for the check to wait for ever (exit by SIGALRM)
+    alarm(90); // a call that does not return is a finding, not a reason for the check to wait for ever (exit by SIGALRM)
 #ifdef LOCKORD
     { static char ctxbuf[16]; snprintf(ctxbuf, sizeof(ctxbuf), "%s", op); lockord_ctx = ctxbuf; }
 #endif
